@@ -179,6 +179,17 @@ def run_shard(sh):
                 res.feat('latin1_cases')
             res.states += 3
             res.transitions += 3
+    elif kind == 'long':
+        # size thresholds: fields whose special characters sit right at 1024 / 8192 (reader chunk, text wrapper buffer) boundaries
+        for L in (1022, 1023, 1024, 1025, 8190, 8191, 8192, 8193):
+            for tail in ('"', dlm if dlm else 'x', ' ', '\n' if pol == 'quoted_rfc' else 'y', o2):
+                f = (o1 * (L - 1)) + tail
+                for enc in (None, 'utf-8'):
+                    judge(res, rc, eng, [[f, 'x'], ['y', f]] if pol != 'monocolumn' else [[f], ['y']], dlm, pol, enc, '\n')
+                    judge(res, rc, eng, [[tail + f + tail]], dlm, pol, enc, '\r\n')
+                    res.feat('long_field_cases')
+                res.states += 4
+                res.transitions += 4
     elif kind == 'pairs3':
         F = list(strings(syms, 3))
         lo, hi = sh['lo'], sh['hi']
@@ -203,6 +214,7 @@ def main(tier, seed):
             shards.append({'kind': 'pairs2', 'cfg': cfg, 'o': o, 'lo': lo, 'hi': hi})
         shards.append({'kind': 'len3', 'cfg': cfg, 'o': o, 'n': 3})
         shards.append({'kind': 'shape', 'cfg': cfg, 'o': o})
+        shards.append({'kind': 'long', 'cfg': cfg, 'o': o})
         shards.append({'kind': 'len3', 'cfg': cfg, 'o': o, 'n': 4})
         n3 = len(list(strings(field_alphabet(cfg[1], o[0], o[1]), 3)))
         for lo, hi in core.chunks(n3, 8):
@@ -211,7 +223,7 @@ def main(tier, seed):
             shards.append({'kind': 'len3', 'cfg': cfg, 'o': o, 'n': 5})
     for cfg in (('simple', ','), ('quoted', ','), ('quoted_rfc', ','), ('simple', '\t'), ('quoted', ';'), ('monocolumn', '')):
         shards.append({'kind': 'latin1', 'cfg': cfg, 'o': ['o', 'e']})
-    shards.sort(key=lambda s: {'pairs3': 0, 'pairs2': 1, 'shape': 2, 'len3': 3, 'latin1': 4}[s['kind']])
+    shards.sort(key=lambda s: {'pairs3': 0, 'pairs2': 1, 'shape': 2, 'len3': 3, 'latin1': 4, 'long': 2}[s['kind']])
     res = core.run_shards('vf.checks.c10', shards)
     return core.finish(PID, tier, seed, res, t0,
         rule='tables over the field alphabet {quote, delimiter characters, space, tab, CR, LF, ordinary, non-ASCII}: all 1-2 field rows over fields <= 2 chars, fields of length 3 (thorough 4; and all 2-field rows over fields <= 3) '
@@ -219,7 +231,7 @@ def main(tier, seed):
              'non-trivial = representable by the reference writer/reader pair (then the real pair must round-trip with no warnings)',
         assumptions=['representable is decided by RefCSV (ref_read(ref_write(t)) == t, CR/CRLF normalised to LF under quoted_rfc)', 'no leading BOM character in the first field'],
         extra={'configurations': len(configs()), 'ordinary': o},
-        min_features={'representable': 50000, 'unrepresentable': 10000, 'rfc_linebreak_fields': 1000, 'delimiter_in_simple_field': 1000, 'latin1_cases': 1000, 'linesep_encoding_cases': 1000})
+        min_features={'representable': 50000, 'unrepresentable': 10000, 'rfc_linebreak_fields': 1000, 'delimiter_in_simple_field': 1000, 'latin1_cases': 1000, 'linesep_encoding_cases': 1000, 'long_field_cases': 500})
 
 
 def replay(rep):
